@@ -133,7 +133,10 @@ def run(ctx, col: Collector):
                              or any(l == ('not', ('truthy', x)) for l in lits for x in [l[1][1]] if l[0] == 'not' and l[1][0] == 'truthy' and l[1][1].endswith('.table')),
                              [EXC + 'TableNotFoundError'], protect=is_normal_return, what='<column>.table is None')
             # the scan covers every column of both sides
-            loops = [n for n in walk_no_nested(vf.node) if isinstance(n, (ast.For, ast.comprehension))]
+            from ..inline import inlined_info
+            vfi = inlined_info(idx, vf, depth=2)
+            loops = [n for n in walk_no_nested(vfi.node) if isinstance(n, (ast.For, ast.comprehension))]
+            opaque_calls = [c for c in walk_no_nested(vfi.node) if isinstance(c, ast.Call) and any(access_path(a) == vp for a in c.args)]
             covered: Set[str] = set()
             for l in loops:
                 it = l.iter
@@ -145,6 +148,10 @@ def run(ctx, col: Collector):
                         if not sliced:
                             covered.add(ap.split('.')[1])
             for side in ('col1', 'col2'):
+                if side not in covered and opaque_calls:
+                    col.unk('C17-endpoint', f'{validator}:scans:{side}', f'{validator} hands the reference to `{norm(opaque_calls[0].func)}`, which this rule cannot read; '
+                            f'whether every column of {side} is inspected is not established', node=vf.node, file=vf.file)
+                    continue
                 col.check(side in covered, 'C17-endpoint', f'{validator}:scans:{side}',
                           f'{validator} inspects every column of {side}',
                           f'{validator} does not iterate over all of {vp}.{side}: a detached non-first column is rendered into '
@@ -170,9 +177,18 @@ def run(ctx, col: Collector):
                 from .common import enclosing_loops
                 from ..cond import copy_subst
                 fnode = getattr(ctx, 'current_fn', None) or v.node
-                sub = copy_subst([s for s in ast.walk(fnode) if isinstance(s, ast.Assign)])
+
+                def preorder(node, acc):
+                    acc.append(node)
+                    for ch in ast.iter_child_nodes(node):
+                        preorder(ch, acc)
+                    return acc
+                order = preorder(fnode, [])
                 for l in enclosing_loops(fnode, n):
                     if isinstance(l, ast.For):
+                        # the assignments that precede this loop (in program text order) decide what its iterable is
+                        k = next((i for i, x in enumerate(order) if x is l), len(order))
+                        sub = copy_subst([s for s in order[:k] if isinstance(s, ast.Assign)])
                         it = norm(l.iter)
                         it = sub.get(it, it)
                         if it == f'self.{side}' or f'self.{side}' in it:
